@@ -25,6 +25,12 @@ func FindByAge(ctx context.Context, l Log, before time.Time) (map[int64]struct{}
 		if err != nil {
 			return nil, err
 		}
+	case errors.Is(err, ErrInvalidOffset):
+		// the log has no messages at all, again use the max as a bound
+		maxOffset, err = l.NextOffset()
+		if err != nil {
+			return nil, err
+		}
 	default:
 		// something else went wrong
 		return nil, err
